@@ -3,6 +3,8 @@ package checks
 import (
 	"encoding/json"
 	"fmt"
+	"runtime"
+	"sync/atomic"
 
 	"cosmossdk.io/math"
 	sdk "github.com/cosmos/cosmos-sdk/types"
@@ -116,4 +118,23 @@ func singleOpBlocks(ops []engb.LOp, dts []int64) []engb.LBlock {
 		out = append(out, engb.LBlock{Dt: 1, Ops: []engb.LOp{o}})
 	}
 	return out
+}
+
+// runConformance replays the collected Engine-B traces through the real block pipeline.
+func runConformance(r *mc.Run, c lockCfg, e *engb.Explorer) {
+	paths := e.ConformancePaths
+	var done, failed atomic.Int64
+	mc.Parallel(len(paths), runtime.NumCPU(), func(i int) {
+		if r.Expired() {
+			return
+		}
+		if err := engb.Conformance(c.genesis(), c.keys(), []common.Address{{}, tk2Addr}, paths[i]); err != nil {
+			failed.Add(1)
+			p := paths[i]
+			r.Violate(mc.Violation{Class: "engine-B-does-not-conform-to-the-real-block-pipeline", Msg: err.Error() + " | history: " + fmt.Sprint(pathStrings(p)), Detail: lockDetail{Cfg: c, Path: p, Note: "conformance"}}, nil)
+		}
+		done.Add(1)
+	})
+	prev, _ := r.Extra["conformance_traces_replayed_through_real_blocks"].(int64)
+	r.Extra["conformance_traces_replayed_through_real_blocks"] = prev + done.Load()
 }
